@@ -55,6 +55,7 @@ std::string stream_text(const StringStream<Char_T> &ss) {
     return o;
 }
 
+static bool g_enumerating = false;
 // stale: 0 a fresh stream; otherwise the stream has held a run of that digit before (written, then Clear()ed: the storage keeps it behind
 // the new content) - the text depends on the number and the format only, not on what lies beyond the stream's length
 template <typename Char_T>
@@ -119,11 +120,12 @@ void run_width(const Case &c, pbt::Ctx &ctx, char stale = 0) {
         ctx.deviation(cls, "got '" + got + "' expected '" + expect + "'" + b + (stale != 0 ? std::string(" (the stream had held a run of '") + stale + "' and was cleared)" : std::string()));
     }
     if (stale == 0 && c.kind <= 1) {
+        // (in the enumerations - millions of patterns per second - one pattern in 32 gets the two extra runs)
         const uint64_t h = (c.bits * 0x9E3779B97F4A7C15ULL) >> 40;
-        if (c.precision <= 2 || (h & 3) == 0) {
+        if (g_enumerating ? (h & 31) == 0 : (c.precision <= 2 || (h & 3) == 0)) {
             run_width<Char_T>(c, ctx, '9');
         }
-        if (c.precision <= 2 || (h & 3) == 1) {
+        if (g_enumerating ? (h & 31) == 0 : (c.precision <= 2 || (h & 3) == 1)) {
             run_width<Char_T>(c, ctx, char('0' + (h >> 4) % 10));
         }
     }
@@ -258,6 +260,7 @@ struct H {
 
     // "floats P F": every float bit pattern at one (precision, format), sharded
     static void enumerate(pbt::Ctx &ctx, unsigned shard, unsigned nshards, const std::string &what) {
+        g_enumerating = true;
         if (what.compare(0, 7, "sparse-") == 0) {
             // every double whose significand has an odd part of at most N bits, in the binades below 1e-200 and above 1e200
             // (where the digit generation keeps only a few guard words), at every precision 0..40 in the Default format
